@@ -571,8 +571,10 @@ impl<B: Backend> Compiler<B, CompilerReady> {
                 })
             }
             OutputMode::Stdout => {
-                std::io::stdout()
+                let mut stdout = std::io::stdout();
+                stdout
                     .write_all(generated.as_bytes())
+                    .and_then(|_| stdout.flush())
                     .map_err(|err| {
                         GeneratorError::new(
                             None,
